@@ -282,6 +282,20 @@ func g1Assigned(r *Repo, rep *Report, b *Body, g *Graph, c *ast.CallExpr, o type
 				case ast.Expr:
 					// a condition
 					if i == len(it.b.Nodes)-1 && len(it.b.Succs) == 2 {
+						// if errors.Is(err, X) { … } / if os.IsNotExist(err) { … }: the branch for the recognised kind of error
+						// has examined it (classification legitimises recovering); the other branch still owes the examination
+						if neg, ok := classifierCond(info, x, v); ok {
+							consumed = true
+							other := it.b.Succs[1]
+							if neg {
+								other = it.b.Succs[0]
+							}
+							if !seen[other] {
+								seen[other] = true
+								work = append(work, item{other, 0})
+							}
+							break
+						}
 						if op, ok := findNilCompare(info, x, v); ok {
 							consumed = true
 							if !g1NonNilSide(r, rep, b, x, op, v, c, o, report) {
@@ -333,6 +347,24 @@ func g1Assigned(r *Repo, rep *Report, b *Body, g *Graph, c *ast.CallExpr, o type
 	if okAll {
 		rep.pass("G1")
 	}
+}
+
+// classifierCond: e is classifier(v, …) or its negation (errors.Is, errors.As, os.IsNotExist, …).
+func classifierCond(info *types.Info, e ast.Expr, v types.Object) (neg bool, ok bool) {
+	e = ast.Unparen(e)
+	if u, isU := e.(*ast.UnaryExpr); isU && u.Op == token.NOT {
+		neg = true
+		e = ast.Unparen(u.X)
+	}
+	c, isCall := e.(*ast.CallExpr)
+	if !isCall || !isClassifier(info, c) || len(c.Args) == 0 {
+		return false, false
+	}
+	id, isID := ast.Unparen(c.Args[0]).(*ast.Ident)
+	if !isID || info.Uses[id] != v {
+		return false, false
+	}
+	return neg, true
 }
 
 // copyOf: n is a statement that does nothing with v but copy it into another local variable, which is returned.
